@@ -520,3 +520,149 @@ Proof.
     rewrite parse_lvals_items by assumption. rewrite strip_ends_q. reflexivity.
 Qed.
 End LineParse.
+
+(* ------------------------------------------------------------------ oracle assumptions *)
+(* the characters strconv.FormatFloat(_, 'g', -1, 64) and the NaN/Inf spellings consist of *)
+Definition is_fchar (c : N) : bool :=
+  is_digit c || (c =? 43) || (c =? 45) || (c =? 46) || (c =? 101) || (c =? 78) || (c =? 97) ||
+  (c =? 73) || (c =? 110) || (c =? 102).
+
+Record oracle_ok (O : oracles) : Prop := {
+  ok_shape : forall f, o_ftext O f <> [] /\ forallb is_fchar (o_ftext O f) = true;
+  ok_parse : forall f, exists b, o_pfloat O (o_ftext O f) = Some b /\ canon_nan b = canon_txt f;
+  ok_norm : forall f, o_norm O (o_ftext O f) = Some (o_fom O f);
+  ok_int : forall z, (0 <= z)%Z ->
+           o_fint O z <> [] /\ forallb is_digit (o_fint O z) = true /\ o_pint O (o_fint O z) = Some z }.
+
+Lemma fchar_facts : forall c, is_fchar c = true ->
+  is_valchar c = true /\ plain c = true /\ (c <? 128) = true /\
+  ((c =? 112) || (c =? 80) || (c =? 95)) = false.
+Proof. intros c H. unfold is_fchar, plain in *. repeat split; blia. Qed.
+
+Lemma forallb_fchar : forall s, forallb is_fchar s = true ->
+  forallb is_valchar s = true /\ forallb plain s = true /\ forallb (fun c => c <? 128) s = true /\
+  existsb (fun c => (c =? 112) || (c =? 80) || (c =? 95)) s = false.
+Proof.
+  induction s as [|c s IH]; simpl; intros H; [auto|].
+  apply andb_true_iff in H as [Hc Hs]. destruct (fchar_facts c Hc) as (A & B & C & D).
+  destruct (IH Hs) as (A' & B' & C' & D'). rewrite A, B, C, D, A', B', C', D'. auto.
+Qed.
+
+Lemma plain_clean : forall s, forallb plain s = true -> forallb clean s = true.
+Proof. intros s. apply forallb_imp. intros c H. unfold plain, clean in *. blia. Qed.
+
+Lemma quoted_plain_ascii_utf8 : forall s, forallb plain s = true -> forallb (fun c => c <? 128) s = true ->
+  utf8_valid (quoted s) = true.
+Proof.
+  intros s Hp Ha. unfold quoted. rewrite (escape_plain true s Hp). apply utf8_ascii.
+  simpl. rewrite forallb_app, Ha. reflexivity.
+Qed.
+
+(* ------------------------------------------------------------------ lines *)
+Definition lines_of (b : bstr) : list (list tok) := split_after (tok_is tLinebreak) [] (ftoks sInit b).
+Definition nolb (t : tok) : bool := negb (tok_is tLinebreak t).
+
+Lemma split_after_line : forall body cur T, forallb nolb body = true ->
+  split_after (tok_is tLinebreak) cur (body ++ (tLinebreak, [10]) :: T) =
+  (rev cur ++ body ++ [(tLinebreak, [10])]) :: split_after (tok_is tLinebreak) [] T.
+Proof.
+  induction body as [|t body IH]; intros cur T H; simpl in *.
+  - reflexivity.
+  - apply andb_true_iff in H as [Ht Hb]. unfold nolb in Ht. apply negb_true_iff in Ht. rewrite Ht.
+    rewrite IH by assumption. simpl. rewrite <- app_assoc. reflexivity.
+Qed.
+
+Section TextProofs.
+Variable O : oracles.
+Variable tu : bool.
+Hypothesis HO : oracle_ok O.
+
+Definition Lfun := fun (tc : N) (_ : bstr) (l : list tok) => prom_line O tu tc l.
+
+Definition parses (tc : N) (b : bstr) (es : list entry) (tc' : N) : Prop :=
+  forall rest, run_lines Lfun tc [] (lines_of (b ++ rest)) =
+               (es ++ fst (run_lines Lfun tc' [] (lines_of rest)), snd (run_lines Lfun tc' [] (lines_of rest))).
+
+Lemma parses_nil : forall tc, parses tc [] [] tc.
+Proof. intros tc rest. simpl. now destruct (run_lines Lfun tc [] (lines_of rest)). Qed.
+
+Lemma parses_app : forall tc b1 es1 tc1 b2 es2 tc2,
+  parses tc b1 es1 tc1 -> parses tc1 b2 es2 tc2 -> parses tc (b1 ++ b2) (es1 ++ es2) tc2.
+Proof.
+  intros tc b1 es1 tc1 b2 es2 tc2 H1 H2 rest. rewrite <- app_assoc. rewrite H1. rewrite H2. simpl.
+  now rewrite <- app_assoc.
+Qed.
+
+Lemma parses_line : forall tc l body e tc',
+  (forall rest, ftoks sInit (l ++ rest) = body ++ (tLinebreak, [10]) :: ftoks sInit rest) ->
+  forallb nolb body = true ->
+  prom_line O tu tc (body ++ [(tLinebreak, [10])]) = LEntry e tc' [] ->
+  parses tc l [e] tc'.
+Proof.
+  intros tc l body e tc' Hl Hb Hp rest. unfold lines_of. rewrite Hl.
+  rewrite split_after_line by assumption. simpl rev. simpl app at 1.
+  simpl run_lines. unfold Lfun at 1. rewrite Hp.
+  fold (lines_of rest). now destruct (run_lines Lfun tc' [] (lines_of rest)).
+Qed.
+
+(* ---- the value / timestamp part of a sample line *)
+Definition ts_ok (ts : option Z) : Prop := match ts with Some t => (0 <= t)%Z | None => True end.
+Definition ts_bytes (ts : option Z) : bstr := match ts with Some t => 32 :: o_fint O t | None => [] end.
+Definition ts_toks (ts : option Z) : list tok := match ts with Some t => [(tTimestamp, o_fint O t)] | None => [] end.
+
+Lemma ft_value_ts : forall f ts rest, ts_ok ts ->
+  ftoks sValue (32 :: o_ftext O f ++ ts_bytes ts ++ 10 :: rest) =
+  (tValue, o_ftext O f) :: ts_toks ts ++ (tLinebreak, [10]) :: ftoks sInit rest.
+Proof.
+  intros f ts rest Hts. destruct (ok_shape O HO f) as [Hne Hf].
+  destruct (forallb_fchar _ Hf) as (Hv & _).
+  destruct ts as [t|]; simpl ts_bytes; simpl ts_toks.
+  - destruct (ok_int O HO t Hts) as (Hn & Hd & _).
+    simpl app. rewrite ft_value by (auto; reflexivity).
+    rewrite ft_ts by assumption. rewrite ft_lb_ts. reflexivity.
+  - simpl app. rewrite ft_value by (auto; reflexivity). rewrite ft_lb_ts. reflexivity.
+Qed.
+
+Lemma prom_series_value : forall tc rn raws f ts, ts_ok ts ->
+  prom_series O tu tc (Some rn) raws ((tValue, o_ftext O f) :: ts_toks ts ++ [(tLinebreak, [10])]) =
+  LEntry (OS (parsed_labels O tu tc [] rn raws) (canon_txt f) ts [] 0%Z) tc [].
+Proof.
+  intros tc rn raws f ts Hts. destruct (ok_shape O HO f) as [Hne Hf].
+  destruct (forallb_fchar _ Hf) as (_ & _ & _ & Hp).
+  destruct (ok_parse O HO f) as (b & Hb & Hc).
+  unfold prom_series, parse_float. rewrite Hp, Hb, Hc.
+  destruct ts as [t|]; simpl.
+  - destruct (ok_int O HO t Hts) as (_ & _ & Hi). rewrite Hi. reflexivity.
+  - reflexivity.
+Qed.
+
+(* ---- no linebreak token inside a line *)
+Lemma nolb_items : forall i r, forallb nolb (item_toks i ++ comma_items r) = true.
+Proof.
+  intros i r. rewrite forallb_app. apply andb_true_iff; split.
+  - unfold item_toks, name_tok. destruct (is_legacy_name (fst i)); reflexivity.
+  - induction r as [|j r IH]; simpl; auto. unfold name_tok. destruct (is_legacy_name (fst j)); simpl; auto.
+Qed.
+
+Lemma nolb_head : forall nm its, forallb nolb (head_toks nm its) = true.
+Proof.
+  intros nm its. unfold head_toks. destruct (is_legacy_name nm); destruct its as [|i r]; try reflexivity.
+  - simpl. rewrite forallb_app. rewrite nolb_items. reflexivity.
+  - simpl. rewrite forallb_app. rewrite nolb_items. reflexivity.
+Qed.
+
+Lemma sample_parses : forall tc nm ls extra its f ts,
+  name_ok nm -> map pair_item ls ++ extra = map pair_item its -> Forall item_ok its -> ts_ok ts ->
+  parses tc (name_and_labels nm ls extra ++ [32] ++ o_ftext O f ++ ts_bytes ts ++ [10])
+         [OS (parsed_labels O tu tc [] (rawname nm) (map raw its)) (canon_txt f) ts [] 0%Z] tc.
+Proof.
+  intros tc nm ls extra its f ts Hn Hits Hok Hts.
+  apply parses_line with (body := head_toks nm its ++ (tValue, o_ftext O f) :: ts_toks ts).
+  - intros rest. repeat rewrite <- app_assoc. simpl app.
+    rewrite (ft_head nm ls extra its) by assumption.
+    rewrite ft_value_ts by assumption. repeat rewrite <- app_assoc. reflexivity.
+  - rewrite forallb_app, nolb_head. destruct ts; reflexivity.
+  - rewrite <- app_assoc. simpl app. rewrite prom_line_head by assumption.
+    apply prom_series_value. assumption.
+Qed.
+End TextProofs.
